@@ -20,6 +20,14 @@ def run(ctx):
     rc, out = vlib.go_test(ctx, "", HARNESS, "TestVerifAnalysis$", env={"VERIF_SCEN": sp, "VERIF_OUT": tp}, timeout=2400)
     if rc != 0:
         raise vlib.MachineryError("analysis driver failed:\n" + out[-3000:])
+    # the model of a channel replaced while records are analysed, through the real RPC method on a running source
+    tr = ctx.path("trace_reload.ndjson")
+    rc, out = vlib.go_test(ctx, "", HARNESS, "TestVerifModelReload$", env={"VERIF_OUT": tr}, timeout=1200)
+    if rc != 0:
+        raise vlib.MachineryError("model reload driver failed:\n" + out[-3000:])
+    rel = vlib.read_ndjson(tr)
+    ctx.notes["records_analysed_during_model_reloads"] = sum(e["records"] for e in rel[-1:])
+    vlib.write_ndjson(tp, vlib.read_ndjson(tp) + rel)
     viols, done = vlib.validate_trace(ctx, "AnalysisTrace", "AnalysisTrace.cfg", tp, heap="24g", timeout=3000)
     events = vlib.read_ndjson(tp)
     for e in events:
@@ -37,6 +45,7 @@ def run(ctx):
                        ["TLC has no floating point: it produces the exact rationals, the driver compares in math/big with tolerance 1e-9 relative (to max(|value|, 1 count))",
                         "pulse RMS and residual standard deviation are compared as squares",
                         "a peak value clamped at 0 (never below the pre-trigger mean) is accepted as well as max - mean: the statement does not decide it",
+                        "model reload stage: two integer-valued models of 100 bases x 1000 samples loaded alternately through SourceControl.ConfigureProjectorsBasis while a 1 MHz Triangle source triggers back to back; every record's coefficients and residual must belong to the same loaded model",
                         "large spreads (second moments beyond 32-bit integers) are not covered by the specification's enumeration"])
 
 
